@@ -183,6 +183,9 @@ def step (s : St) (line : String) : St × String :=
   | "cmd.restore" :: ix :: args :: [] =>
     let w : Cmds.WS := ⟨entriesIn ix, [], [], none, [], false⟩
     (s, resOut (fun r => entriesOut ((r.mergeSort (fun a b => decide (a.path ≤ b.path))).eraseDups)) (Cmds.restoreWork w ((splitList args).map unhex)))
+  | "cmd.restore-staged" :: ix :: sn :: args :: [] =>
+    let r := Cmds.restoreStagedArgs (entriesIn sn) ((splitList args).map unhex) (entriesIn ix)
+    (s, (if r.1 then "ok " else "err ") ++ entriesOut r.2)
   | ["abs.run", cs, bs, rs, hd, ix, lg, ops] =>
     let ids (x : String) : List Bytes := (splitList x).map unhex
     let r : Abs.Repo := ⟨ids cs, ids bs, pairsIn rs, unhex hd, pairsIn ix, (splitList lg).map (fun x => if x == "nil" then none else some (unhex x))⟩
